@@ -1,6 +1,7 @@
-(* C08 Declared field lengths are enforced on both pack and unpack. Proofs in Proofs/FieldProofs.v. *)
+(* C08 Declared field lengths are enforced on both pack and unpack. Proofs in Proofs/FieldProofs.v; the statement for
+   whole specification trees (every node that contributed bytes, at every depth) is C08_pack_tree, Proofs/LengthTree.v. *)
 From Iso Require Import Model.Base Model.Padding Model.Encoding Model.Prefix Model.Bitmap Model.Spec Model.Field
-     Proofs.BaseLemmas Proofs.EncodingProofs Proofs.PrefixProofs Proofs.FieldProofs.
+     Proofs.BaseLemmas Proofs.EncodingProofs Proofs.PrefixProofs Proofs.FieldProofs Proofs.CompositeProofs Proofs.LengthTree Properties.C01.
 
 (* Pack returns bytes only if the (padded) value is within the declared maximum, equal to the declared
    length of a fixed field, and expressible in the prefix's digits *)
@@ -50,3 +51,17 @@ Example C08_ex1 : is_err (prim_pack p8 (SString [x61; x62; x63; x64])) = true /\
 Proof. split; vm_compute; reflexivity. Qed.
 Example C08_ex2 : is_err (prim_unpack_raw p8 [x30; x34; x61; x62; x63; x64]) = true /\ is_err (prim_unpack_raw p8 [x30; x33; x61; x62]) = true.
 Proof. split; vm_compute; reflexivity. Qed.
+
+(* the whole tree: when Pack of a field of any coherent specification succeeds, the declared length was enforced at every
+   node that contributed bytes - the field itself and, recursively, every set subfield at every depth (pack_enforced:
+   a primitive's padded value, a composite's concatenated body, each with a length its prefixer need not refuse) *)
+Theorem C08_pack_tree : forall s, coherent s -> forall st b, pack_f s st = Ok b -> pack_enforced s st.
+Proof. exact pack_enforces_tree. Qed.
+Print Assumptions C08_pack_tree.
+
+(* a nested specification: the inner Numeric element (maximum 6) given 7 digits makes the Pack of the outer composite fail,
+   with 6 digits it packs; the specification is coherent (C01_ex_coherent) *)
+Example C08_ex_tree : coherent c_ex /\
+  is_err (pack_f c_ex (SComp [[x31]] [([x31], SNumeric 1234567); ([x32], SBinary [])])) = true /\
+  is_ok (pack_f c_ex (SComp [[x31]] [([x31], SNumeric 123456); ([x32], SBinary [])])) = true.
+Proof. split; [exact C01_ex_coherent|split; vm_compute; reflexivity]. Qed.
